@@ -1,6 +1,8 @@
 package webtransport
 
 import (
+	"io"
+
 	verif "github.com/zishang520/engine.io/v2/internal/zzverif"
 )
 
@@ -29,4 +31,158 @@ func VerifH_C14_oneshot_server() {
 	err := c.WriteMessage(kind, data)
 	verif.Assert(err == nil, "no error")
 	checkOneFrame(st, kind, data)
+}
+
+// Client one-shot path (NextWriter + Write + Close): lengths up to 2^31 (the writer
+// buffers the whole message, so the length is bounded by what can be allocated).
+func VerifH_C14_oneshot_client() {
+	kind := verif.Choose(2) + 1
+	data := verif.Bytes(1 << 31)
+	st := &fakeStream{failAt: -1}
+	c := NewConn(nil, st, false, 0, 4, nil, nil, nil)
+	err := c.WriteMessage(kind, data)
+	verif.Assert(err == nil, "no error")
+	checkOneFrame(st, kind, data)
+}
+
+// Streaming writer, one Write of arbitrary length followed by Close (server and client
+// flavour, with and without a buffer pool).
+func VerifH_C14_stream_single_write() {
+	kind := verif.Choose(2) + 1
+	data := verif.Bytes(1 << 31)
+	st := &fakeStream{failAt: -1}
+	c := pickConn(st, 4)
+	wr, err := c.NextWriter(kind)
+	verif.Assert(err == nil, "NextWriter")
+	n, err := wr.Write(data)
+	verif.Assert(err == nil && n == len(data), "Write")
+	verif.Assert(wr.Close() == nil, "Close")
+	checkOneFrame(st, kind, data)
+}
+
+// Streaming writer fed by two writes split at an arbitrary point.
+func VerifH_C14_stream_two_writes() {
+	kind := verif.Choose(2) + 1
+	data := verif.Bytes(1 << 20)
+	a := verif.Int64()
+	verif.Assume(a >= 0 && a <= int64(len(data)))
+	st := &fakeStream{failAt: -1}
+	c := NewConn(nil, st, verif.Bool(), 0, 4, nil, nil, nil)
+	wr, err := c.NextWriter(kind)
+	verif.Assert(err == nil, "NextWriter")
+	n1, e1 := wr.Write(data[:a])
+	n2, e2 := wr.Write(data[a:])
+	verif.Assert(e1 == nil && e2 == nil && n1+n2 == len(data), "Writes")
+	verif.Assert(wr.Close() == nil, "Close")
+	checkOneFrame(st, kind, data)
+}
+
+// Prepared message written to a server or client connection: every length.
+func VerifH_C14_prepared() {
+	kind := verif.Choose(2) + 1
+	data := verif.Bytes(1 << 31)
+	st := &fakeStream{failAt: -1}
+	c := NewConn(nil, st, verif.Bool(), 0, 4, nil, nil, nil)
+	pm, err := NewPreparedMessage(kind, data)
+	verif.Assert(err == nil, "NewPreparedMessage")
+	if err != nil {
+		return
+	}
+	verif.Assert(c.WritePreparedMessage(pm) == nil, "WritePreparedMessage")
+	checkOneFrame(st, kind, data)
+}
+
+// A message type other than text/binary is refused and nothing is written.
+func VerifH_C14_bad_type() {
+	kind := int(verif.Int64())
+	verif.Assume(kind != TextMessage && kind != BinaryMessage)
+	st := &fakeStream{failAt: -1}
+	c := NewConn(nil, st, verif.Bool(), 0, 4, nil, nil, nil)
+	err := c.WriteMessage(kind, verif.Bytes(8))
+	verif.Assert(err != nil, "bad message type refused")
+	verif.Assert(st.total() == 0, "nothing written for a refused message")
+}
+
+// Decoder: a stream of up to two reference frames, each in the minimal or a non-minimal
+// length form (126 with n < 126, 127 with n < 65536 or n < 126), zero length included.
+func VerifH_C14_decoder_forms() {
+	var wire []byte
+	kinds := [2]int{}
+	datas := [2][]byte{}
+	m := verif.Choose(2) + 1
+	for k := 0; k < m; k++ {
+		kinds[k] = verif.Choose(2) + 1
+		n := verif.Concretize(verif.Int(0, 3))
+		datas[k] = verif.BytesN(n)
+		var b0 byte
+		if kinds[k] == BinaryMessage {
+			b0 = 0x80
+		}
+		switch verif.Choose(3) {
+		case 0:
+			wire = append(wire, b0|byte(n))
+		case 1:
+			wire = append(wire, b0|126, byte(n>>8), byte(n))
+		default:
+			wire = append(wire, b0|127, 0, 0, 0, 0, 0, 0, byte(n>>8), byte(n))
+		}
+		wire = append(wire, datas[k]...)
+	}
+	rc, _ := newReaderConn(wire, 3)
+	for k := 0; k < m; k++ {
+		expectMessage(rc, kinds[k], datas[k], "frame")
+	}
+	expectEnd(rc, "stream")
+}
+
+// Decoder, length classes: a single frame whose 16-bit / 64-bit length field is symbolic;
+// NextReader must announce the kind and deliver exactly the declared number of bytes
+// (payload supplied up to 40 bytes; longer declared lengths must end as unexpected EOF).
+func VerifH_C14_decoder_lengths() {
+	kind := verif.Choose(2) + 1
+	var b0 byte
+	if kind == BinaryMessage {
+		b0 = 0x80
+	}
+	form := verif.Choose(2)
+	var hdr []byte
+	var declared uint64
+	if form == 0 {
+		hi, lo := verif.Byte(), verif.Byte()
+		hdr = []byte{b0 | 126, hi, lo}
+		declared = uint64(hi)<<8 | uint64(lo)
+	} else {
+		v := verif.Uint64()
+		verif.Assume(v < 1<<63)
+		hdr = []byte{b0 | 127, byte(v >> 56), byte(v >> 48), byte(v >> 40), byte(v >> 32), byte(v >> 24), byte(v >> 16), byte(v >> 8), byte(v)}
+		declared = v
+	}
+	payload := verif.BytesN(verif.Int(0, 5))
+	wire := append(hdr, payload...)
+	rc, _ := newReaderConn(wire, 1)
+	mt, r, err := rc.NextReader()
+	verif.Assert(err == nil && r != nil, "header accepted")
+	if err != nil {
+		return
+	}
+	verif.Assert(mt == kind, "kind")
+	buf := make([]byte, 16)
+	total := 0
+	var rerr error
+	for i := 0; i < 3 && rerr == nil; i++ {
+		var n int
+		n, rerr = r.Read(buf)
+		j := verif.Int(0, 15)
+		if j < n && total+j < len(payload) {
+			verif.Assert(buf[j] == payload[total+j], "payload bytes")
+		}
+		total += n
+	}
+	if declared <= uint64(len(payload)) {
+		verif.Assert(uint64(total) == declared, "exactly the declared bytes")
+		verif.Assert(rerr == io.EOF, "clean end at the declared length")
+	} else {
+		verif.Assert(total == len(payload), "all supplied bytes")
+		verif.Assert(rerr == errUnexpectedEOF, "truncated frame reported as unexpected EOF")
+	}
 }
